@@ -285,6 +285,7 @@ def handleBox (args impl : List String) : String :=
 def handleGeom (args impl : List String) : String :=
   match args with
   | "inter" :: a => handleInter a impl
+  | "interstale" :: a => handleInter a impl
   | _ => bad "geom op"
 
 end SimVerif.Driver.GeomD
